@@ -192,6 +192,14 @@ func c04Cells(tier string) []Cell {
 							}
 
 							cells = append(cells, Cell{ID: c.ID()})
+
+							// the backend has been walked by somebody who gave up half-way (a dump to a broken connection):
+							// the Gets that follow must complete all the same
+							if pi == 3 && !faults && init != "A" && cfgBits&0x18 == 0x08 {
+								w := c
+								w.Tags = []string{"walkfail"}
+								cells = append(cells, Cell{ID: w.ID()})
+							}
 						}
 					}
 				}
